@@ -211,7 +211,22 @@ def key_sweep(fam, rnd, quick):
     if fam in ("bcrypt", "ldap_bcrypt"):
         # the legacy "$2$" identifier repeats the password to 72 bytes: lengths whose 72nd byte falls inside a multi-byte character
         for cfg in (c for c in cfgs if "$2$" in c):
-            for s in ("a\u00e9aaa", "a\u20acaaaaa", "\u00e9aaaaaa", "aa\U0001F600a", "\u20ac" * 2 + "b" * 5, "a\u00e9" * 4 + "aaa"):
+            cands = ["\u00e9" * 5 + "abc", "p\u00e4ssw\u00f6rd-\u20ac", "a\u00e9aa"]
+            for L, ch in ((5, "\u00e9"), (7, "\u20ac"), (11, "\U0001F600"), (13, "\u00df"), (23, "\u20ac"), (35, "\U00010000"), (50, "\u00e9")):
+                r = 72 % L              # the repetition is cut after r bytes of a copy: put a character across that point
+                pre_n = max(0, r - 1)
+                cands.append("a" * pre_n + ch + "a" * max(0, L - pre_n - len(ch.encode())))
+            cands.append("\u00e9" * 35)
+            cut = []
+            for s in cands:
+                b = s.encode()
+                try:
+                    (b * 72)[:72].decode()
+                except UnicodeDecodeError:
+                    cut.append(s)
+            if len(cut) < 4:
+                raise tlc.MachineryError("C03: too few passwords whose 72-byte repetition ends inside a character")
+            for s in cut + cands[-1:]:
                 b = s.encode()
                 keys.append((f"{fam}|{cfg}|{b.hex()[:40]}|{len(b)}", b.hex(), cfg))
     return keys
@@ -339,8 +354,10 @@ def run(chk):
     # 3. digests: all backends x independent providers
     evs = []
     sweeps = []
+    secret_of = {}
     for f in fams:
         keys = key_sweep(f, rnd, quick)
+        secret_of.update({k[0]: k[1] for k in keys})
         heavy = []
         if f == "scrypt":
             # legal costs around the memory sizes at which the C providers start to ask for an explicit limit (16, 32, 64 MiB): only for
@@ -368,8 +385,16 @@ def run(chk):
                 evs.append({"key": kid, "provider": f"passlib:{b}", "digest": "(refused: NUL in the password)", "family": f})
             else:
                 secret_len = int(kid.rsplit("|", 1)[1])
-                chk.violation(f"{f}:{b}:hash-error:{status}", f"{f} with backend {b} failed to hash a {secret_len}-byte password: {status} {val}",
-                              {"family": f, "backend": b, "key": kid, "error": [status, val]})
+                sh = secret_of.get(kid)
+                try:
+                    bytes.fromhex(sh or "").decode("utf-8")
+                    cls = "utf8" if sh is not None else "unknown"
+                except UnicodeDecodeError:
+                    cls = "not-utf8"
+                # (the class of the password is part of the key: a refusal of well-formed text is another matter than the
+                # recorded refusal of bytes that are not UTF-8)
+                chk.violation(f"{f}:{b}:hash-error:{status}:{cls}", f"{f} with backend {b} failed to hash a {secret_len}-byte password ({cls}): {status} {val}",
+                              {"family": f, "backend": b, "key": kid, "secret_hex": sh, "error": [status, val]})
     evs += lazy_events
     evs.sort(key=lambda e: (e["key"], not e["provider"].startswith("passlib"), "behaviour-step" in e["provider"]))
     wd = tlc.WORK / "C03_trace_in"
